@@ -81,11 +81,20 @@ Definition json_regs : regs :=
 (** BQTimestampCodec registered for time.Time under the tag "bq" *)
 Definition bq_regs : regs := [ (TExt 0, s_bq, CBQ) ].
 
+(** registrations made by the user of one instance (RegisterCodec /
+    RegisterCodecWithTag after RegisterDefaultCodecs): int64 encoded with the
+    flat codec (overriding the default - Store replaces), and the tag "zz"
+    registered for string and for int32 *)
+Definition s_zz : bytes := [122;122].
+Definition custom_regs : regs :=
+  [ (TInt 64, [], CFlat 64); (TString, s_zz, CString); (TInt 32, s_zz, CInt 32) ].
+
 Record cfg := mkcfg {
   proto_time : bool; proto_arrays : bool;
-  with_null : bool; with_json : bool; with_bq : bool }.
+  with_null : bool; with_json : bool; with_bq : bool; with_custom : bool }.
 Definition regs_of (c : cfg) : regs :=
-  default_regs (proto_time c)
+  (if with_custom c then custom_regs else [])
+  ++ default_regs (proto_time c)
   ++ (if with_null c then null_regs else [])
   ++ (if with_json c then json_regs else [])
   ++ (if with_bq c then bq_regs else []).
